@@ -2,6 +2,7 @@
 #pragma once
 
 #include <cstdint>
+#include <cstdlib>
 #include <cstdio>
 #include <cstring>
 #include <fstream>
@@ -140,13 +141,35 @@ struct Verdict {
   std::vector<const char*> tags;
   std::string detail;  // free text for samples (trace etc.)
 
-  void Fail(const std::string& m) {
-    if (ok) {
-      ok = false;
-      msg = m;
+  void Fail(const std::string& m);
+};
+
+// C03 re-runs other properties' generators under the release oracle only (env VF_RELEASE_ONLY=1): a verdict is kept
+// only if it speaks about ownership (Tracked life-cycle, balance, heap ledger); crashes / sanitizer reports always count.
+inline bool ReleaseOnly() {
+  static const bool v = std::getenv("VF_RELEASE_ONLY") != nullptr;
+  return v;
+}
+inline bool IsReleaseMessage(const std::string& m) {
+  static const char* const k[] = {"destroyed", "constructed != destroyed", "heap blocks", "moved-from", "garbage", "torn",
+                                  "frame local", "released", "remain"};
+  for (const char* w : k) {
+    if (m.find(w) != std::string::npos) {
+      return true;
     }
   }
-};
+  return false;
+}
+
+inline void Verdict::Fail(const std::string& m) {
+  if (ReleaseOnly() && !IsReleaseMessage(m)) {
+    return;  // another property's clause
+  }
+  if (ok) {
+    ok = false;
+    msg = m;
+  }
+}
 
 inline std::uint64_t Mix64(std::uint64_t a, std::uint64_t b) {
   std::uint64_t x = a ^ (b + 0x9e3779b97f4a7c15ull + (a << 6) + (a >> 2));
